@@ -102,18 +102,87 @@ class Harness:
     def time_left(self) -> float:
         return self.deadline - time.monotonic()
 
+    # ------------------------------------------------------------------ guard against operations that never return
+    CASE_LIMIT_S = 45.0
+
+    def _start_guard(self) -> None:
+        """A case normally takes milliseconds.  Executions are watched by the schedule controller's own watchdog; this
+        guard covers everything else a case does with tawazi (building, selecting, composing ...): if the main thread
+        is still inside one case after CASE_LIMIT_S and three samples one second apart all show it inside tawazi's
+        code, HangDetected is raised there, and the case is reported as a violation with those frames."""
+        import ctypes
+        import threading
+
+        from . import sched
+
+        main_ident = threading.get_ident()
+        self._case_t0: Optional[float] = None
+        self._guard_frames: List[str] = []
+
+        def loop() -> None:
+            while True:
+                time.sleep(2.0)
+                t0 = self._case_t0
+                if t0 is None or time.monotonic() - t0 < self.CASE_LIMIT_S:
+                    continue
+                samples = []
+                for _ in range(3):
+                    fr = sys._current_frames().get(main_ident)
+                    import traceback as tb
+
+                    frames = [f"{f.filename}:{f.lineno}:{f.name}" for f in tb.extract_stack(fr)] if fr else []
+                    samples.append(frames)
+                    time.sleep(1.0)
+                if self._case_t0 != t0:
+                    continue  # the case ended meanwhile
+                if all(any("/tawazi/" in f for f in s[-8:]) for s in samples):
+                    self._guard_frames = samples[-1][-6:]
+                    sched.LAST_GUARD_FRAMES = list(self._guard_frames)
+                    self._case_t0 = None
+                    ctypes.pythonapi.PyThreadState_SetAsyncExc(ctypes.c_ulong(main_ident), ctypes.py_object(sched.HangDetected))
+
+        threading.Thread(target=loop, name="vlib-case-guard", daemon=True).start()
+        self._guard_started = True
+
+    def guarded_apply(self, fn: Callable[..., Any], *a: Any) -> Any:
+        """Run one history operation (state machines) under the same guard; a hang becomes a finding of that step."""
+        from . import sched
+
+        if not getattr(self, "_guard_started", False):
+            self._start_guard()
+        self._case_t0 = time.monotonic()
+        try:
+            return fn(*a)
+        except sched.HangDetected:
+            return [("hang-in-tawazi", f"the operation had not returned after {self.CASE_LIMIT_S:.0f}s and the thread was inside tawazi in three samples one second apart: {self._guard_frames}")]
+        finally:
+            self._case_t0 = None
+
     def one(self, case: Any, raise_on_violation: bool = False) -> Optional[CaseResult]:
         """Evaluate one generated case.  Returns its result (None if the run-time budget is exhausted)."""
         if self.time_left() <= 0 and self.target is None:
             return None
+        from . import sched
+
+        if not getattr(self, "_guard_started", False):
+            self._start_guard()
+        self._case_t0 = time.monotonic()
         try:
             res: CaseResult = self.check.run_case(case)
+        except sched.HangDetected:
+            # raised by the guard above: a tawazi operation of this case did not return
+            self._case_t0 = None
+            res = CaseResult()
+            res.viol("hang-in-tawazi", f"an operation of this case had not returned after {self.CASE_LIMIT_S:.0f}s and the thread was inside tawazi in three samples one second apart: {self._guard_frames}")
+            return self.record(case, res, False)
         except Exception:
             # the harness itself broke: never reported as a property violation
             msg = traceback.format_exc()
             if len(self.harness_errors) < 5:
                 self.harness_errors.append(msg + "\nCASE: " + json.dumps(case, default=str)[:4000])
             raise
+        finally:
+            self._case_t0 = None
         return self.record(case, res, raise_on_violation)
 
     def record(self, case: Any, res: CaseResult, raise_on_violation: bool = False) -> Optional[CaseResult]:
